@@ -660,6 +660,24 @@ def obs_scenarios(f, role):
     return res
 
 
+PENDING = []
+
+
+def resolve_pending(ctx, tu, analysed):
+    """private Observer members called from outside Observer (through the friendship with Observable): accepted when they are
+    the helper through which ~Observable clears the observee of each registered observer, and nobody else calls them"""
+    R1 = 'R-C19-1'
+    for tid, f, inst0, tch, outside in [p for p in PENDING if p[0] == id(tu)]:
+        if f['id'] in ORPHAN['helpers'] and all(o in ORPHAN['ctx'] for o in outside):
+            analysed.add(f['id'])
+            ctx.ok(R1, inst0, 'private helper called only from the orphaning loop of ~Observable (%s): clears the observee of the observer '
+                   'it is called on' % ', '.join(sorted(set(o.replace(NS, '') for o in outside))[:2]), tu.fn_loc(f))
+        else:
+            ctx.undecided(R1, inst0, 'Observer member touches %s but has no known role and is called from outside Observer (%s)'
+                          % (tch, ', '.join(outside[:3])), tu.fn_loc(f))
+    PENDING[:] = [p for p in PENDING if p[0] != id(tu)]
+
+
 def check_observer(ctx, tu, F, analysed, all_tus=()):
     R1, R2, R4 = 'R-C19-1', 'R-C19-2', 'R-C19-4'
     it = ObsInterp(tu, F)
@@ -677,9 +695,10 @@ def check_observer(ctx, tu, F, analysed, all_tus=()):
                 outside = callers_outside([tu] + list(all_tus), f['q'], {OBSR}) if f.get('access') == 'private' and not f.get('virt') else None
                 if outside == []:
                     helpers.append((f, inst0))
+                elif outside:
+                    PENDING.append((id(tu), f, inst0, sorted(tch), outside))      # decided after the Observable side was analysed
                 else:
-                    ctx.undecided(R1, inst0, 'Observer member touches %s but has no known role%s' % (
-                        sorted(tch), '' if outside is None else ' and is called from outside Observer (%s)' % ', '.join(outside[:3])), tu.fn_loc(f))
+                    ctx.undecided(R1, inst0, 'Observer member touches %s but has no known role' % sorted(tch), tu.fn_loc(f))
             continue
         analysed.add(f['id'])
         rule = R2 if role == 'wasNotified' else R4 if role in ('copy-ctor', 'move-ctor', 'copy-assign', 'move-assign') else R1
@@ -901,6 +920,83 @@ def null_literal(tu, e):
                               (e.get('kind') == 'IntegerLiteral' and e.get('value') == '0'))
 
 
+ORPHAN = {'ctx': set(), 'helpers': set()}     # functions forming the orphaning context of ~Observable / Observer helpers it calls
+
+
+def member_nulls_observee(tu, F, fn, depth=0):
+    """does the Observer member fn clear this->observee on every path?  'yes' / 'nonnull' / 'no' (followed, nothing found) /
+    'unknown'.  Calls to other Observer members on *this are followed."""
+    g = tu.cfg(fn)
+    if g is None or g.back_edges() or depth > 3:
+        return 'unknown'
+    found = []
+    for x in tu.walk(tu.body(fn)):
+        if x.get('kind') == 'BinaryOperator' and x.get('opcode') == '=':
+            lhs = tu.strip(tu.kids(x)[0], casts=True)
+            if lhs.get('kind') == 'MemberExpr' and tu.sd(lhs).get('d') == F.observee['id']:
+                ks = tu.kids(lhs)
+                if ks and not tu.is_this(ks[0]):
+                    return 'unknown'
+                if not null_literal(tu, tu.kids(x)[1]):
+                    return 'nonnull'
+                found.append(x)
+    if any(on_every_path(g, x['id']) for x in found):
+        return 'yes'
+    if found:
+        return 'unknown'
+    sub = []
+    for x in tu.walk(tu.body(fn)):
+        if x.get('kind') == 'CXXMemberCallExpr' and tu.sd(x).get('rec') == OBSR:
+            s_, obj, a_ = tu.call_parts(x)
+            cf = tu.callee_fn(x)
+            if cf is None or (obj is not None and not tu.is_this(obj)):
+                return 'unknown'
+            r = member_nulls_observee(tu, F, cf, depth + 1)
+            if r == 'yes' and on_every_path(g, x['id']):
+                ORPHAN['helpers'].add(cf['id'])
+                return 'yes'
+            sub.append(r)
+    return 'unknown' if sub else 'no'
+
+
+def element_orphaned_by_helper(tu, F, scope, elem_id, is_executed):
+    """calls `elem->helper()` inside scope (loop body / lambda body) to Observer members: ('yes', text) when one that clears the
+    observee is executed for every element, ('no', None) when helpers were followed and none clears it, ('unknown', why),
+    None when the element is not handed to any helper"""
+    res = []
+    for x in tu.walk(scope):
+        if x.get('kind') == 'CXXMemberCallExpr' and tu.sd(x).get('rec') == OBSR:
+            s_, obj, a_ = tu.call_parts(x)
+            base = tu.strip(obj, casts=True) if obj is not None else None
+            while base is not None and base.get('kind') == 'UnaryOperator' and base.get('opcode') == '*':
+                base = tu.strip(tu.kids(base)[0], casts=True)
+            if base is None or tu.ref_decl(base) != elem_id:
+                continue
+            cf = tu.callee_fn(x)
+            if cf is None or tu.cfg(cf) is None:
+                res.append(('unknown', 'helper %s has no visible body' % tu.sd(x).get('q')))
+                continue
+            r = member_nulls_observee(tu, F, cf)
+            if r == 'yes':
+                if is_executed(x):
+                    ORPHAN['helpers'].add(cf['id'])
+                    return ('yes', 'calls %s() on every element, which assigns null to its observee on every path' % cf['q'].split('::')[-1])
+                res.append(('unknown', 'the call of %s is not executed for every element' % cf['q']))
+            elif r == 'nonnull':
+                res.append(('nonnull', None))
+            elif r == 'no':
+                res.append(('no', None))
+            else:
+                res.append(('unknown', 'effect of %s on the observee is not understood' % cf['q']))
+    if not res:
+        return None
+    for k in ('unknown', 'nonnull', 'no'):
+        for r in res:
+            if r[0] == k:
+                return r
+    return None
+
+
 def for_each_orphans(tu, f, F, al, analysed):
     """std::for_each(list.begin(), list.end(), [](Observer *o) { o->observee = nullptr; }): the callable is applied to every
     element; its body must assign null to the observee of its parameter on every path"""
@@ -933,9 +1029,17 @@ def for_each_orphans(tu, f, F, al, analysed):
                 if base is not None and tu.ref_decl(base) == ps[0]['id']:
                     assigns.append((x, null_literal(tu, tu.kids(x)[1])))
     analysed.add(lam['id'])
+    ORPHAN['ctx'] |= {f['q'], lam['q']}
     if not assigns:
-        return ('violation', 'no-orphaning', '~Observable visits its observers without clearing their observee pointer: every registered '
-                'observer keeps a dangling pointer')
+        h = element_orphaned_by_helper(tu, F, tu.body(lam), ps[0]['id'], lambda x: on_every_path(g, x['id']))
+        if h is not None and h[0] == 'yes':
+            return ('ok', 'std::for_each over the whole observer list with a lambda that ' + h[1])
+        if h is not None and h[0] == 'unknown':
+            return ('undecided', h[1])
+        if h is not None and h[0] == 'nonnull':
+            return ('violation', 'orphan-not-null', '~Observable assigns a non-null value to the observee of its observers')
+        return ('violation', 'no-orphaning', '~Observable visits its observers without clearing their observee pointer%s: every registered '
+                'observer keeps a dangling pointer' % (' (the helper it calls on each of them does not clear it either)' if h else ''))
     if not all(n for x, n in assigns):
         return ('violation', 'orphan-not-null', '~Observable assigns a non-null value to the observee of its observers')
     if not any(on_every_path(g, x['id']) for x, n in assigns):
@@ -1301,6 +1405,7 @@ def check_observable(ctx, tu, F, analysed):
     analysed.add(f0['id'])
     f = follow_forwarding(tu, f0)
     analysed.add(f['id'])
+    ORPHAN['ctx'] |= {f0['q'], f['q']}
     n += 1
     inst, file = fn_name(f0), tu.fn_file(f0)
     g = tu.cfg(f)
@@ -1472,6 +1577,23 @@ def range_for_orphans(tu, f, g, loop, F, al):
                 isnull = rhs.get('kind') in ('CXXNullPtrLiteralExpr', 'GNUNullExpr') or (rhs.get('kind') == 'IntegerLiteral' and rhs.get('value') == '0')
                 if base is not None and base.get('kind') == 'DeclRefExpr' and base.get('referencedDecl', {}).get('id') == loopvar['id']:
                     assigns.append((x, isnull))
+    ORPHAN['ctx'].add(f['q'])
+    if not assigns:
+        def executed(x):
+            lvp = None
+            for b, i, y in g.stmts():
+                if y.get('kind') == 'DeclStmt' and any(v.get('id') == loopvar['id'] for v in tu.kids(y)):
+                    lvp = (b.id, i)
+            ap = g.where(x['id'])
+            return lvp is not None and ap is not None and g.postdominates(ap, lvp) and not any(
+                z.get('kind') in ('BreakStmt', 'ReturnStmt', 'GotoStmt', 'CXXThrowExpr', 'ContinueStmt') for z in tu.walk(body))
+        h = element_orphaned_by_helper(tu, F, body, loopvar['id'], executed)
+        if h is not None and h[0] == 'yes':
+            return ('ok', 'range-for over the observer list ' + h[1])
+        if h is not None and h[0] == 'unknown':
+            return ('undecided', h[1])
+        if h is not None and h[0] == 'nonnull':
+            return ('violation', 'orphan-not-null', '~Observable assigns a non-null value to the observee of its observers')
     if not assigns:
         return ('violation', 'no-orphaning', '~Observable iterates over its observers without clearing their observee pointer: every '
                 'registered observer keeps a dangling pointer')
@@ -1796,6 +1918,12 @@ def check_timestamp(ctx, tu_src, tu_drv, lib_tus, analysed_names):
                                  'an earlier one (wasNotified compares stamps across threads: notifications are lost or reported repeatedly)'
                                  % (cache, 'without touching the global counter on this path' if not rmw else
                                     'not the result of the increment of global performed on this path')))
+                continue
+            delegated = [x_ for blk_, t_ in path for e_ in blk_.el if e_[0] == 'S' for x_ in [tu_src.node(e_[1])]
+                         if x_ is not None and x_.get('kind') in CALLS and tu_src.callee_fn(x_) is not None and
+                         not tu_src.sd(x_).get('q', '').startswith('std::')]
+            if len(rmw) != 1 and delegated:
+                undec.append('nextValue delegates to %s, which is not followed' % tu_src.sd(delegated[0]).get('q'))
                 continue
             if len(rmw) != 1 or rmw[0][1][1] < 1:
                 problems.append(('not-one-rmw', 'nextValue must advance global by exactly one atomic increment per call; this path performs: %s'
@@ -2258,6 +2386,7 @@ def run(ctx):
         analysed = set()
         n1, n2, n4a = check_observer(ctx, tu, F, analysed, [tu_src] + list(lib_tus))
         n1 += check_observable(ctx, tu, F, analysed)
+        resolve_pending(ctx, tu, analysed)
         nfs = {f['id'] for f in tu.fns(q=NOTIFY, dep=False)}
         nfs |= {follow_forwarding(tu, f)['id'] for f in tu.fns(q=NOTIFY, dep=False) if tu.cfg(f) is not None}
         n6 = check_stamp_writers(ctx, tu, F, nfs)
@@ -2278,6 +2407,7 @@ def run(ctx):
             an2 = set()
             check_observer(ctx, tu2, F2, an2)
             check_observable(ctx, tu2, F2, an2)
+            resolve_pending(ctx, tu2, an2)
             check_special(ctx, tu2, F2, an2)
     from rkstatic import selftest
     selftest.run(ctx)
